@@ -277,6 +277,11 @@ void MEDDLY::prepost_set_mtrel<EOP, ATYPE>::_compute(int L,
         // Treat that case quickly.
         //
         ATYPE::apply(arg1F, av, A, arg2F, B, resF, cv, C);
+        //
+        // The copy is rooted at A's level; a result forest that may not
+        // skip levels needs the redundant nodes up to level L.
+        //
+        C = resF->makeRedundantsTo(C, resF->getNodeLevel(C), L);
         return;
     }
 
